@@ -432,6 +432,17 @@ def text_shard(asm, acc, sh, deadline):
         if sh.get('alias') and rng.random() < 0.5:
             line = alias_some(rng, line)
         batch.append((m, tup, kw, line))
+        if imm is None and fmt_class(m) in ('I', 'S', 'U', 'B', 'J') and m != 'jalr' and rng.random() < 0.15:
+            # twins: the same mnemonic with the same registers in the same spelling, the immediates a step apart (-1 / -2, 0 / 1, the two
+            # ends of the range, ...) somewhere in one program: every line is an instruction of its own
+            k2 = rng.getrandbits(30)
+            dom = imm_domain(m)
+            step = dom[1] - dom[0]
+            a_imm = rng.choice([-step, -step, 0, dom[0], dom[-1] - step, step])
+            for tw in (a_imm, a_imm - step if a_imm - step >= dom[0] else a_imm + step, a_imm):
+                t2 = tup[:-1] + (tw,)
+                batch.append((m, t2, kw, text_line(random.Random(k2), m, t2, kw).replace('(', ' (') if False else text_line(random.Random(k2), m, t2, kw)))
+            acc['ctr']['twin_lines'] += 3
         if len(batch) >= 500:
             text_batch(asm, acc, batch, 'text')
             batch = []
